@@ -7,8 +7,8 @@ from __future__ import annotations
 import ast
 
 from ..core import AnalysisError, dotted
-from ..kinds import value_languages
-from ..lexmodel import LexModel, ANY
+from ..lexlaws import law_number_splitting, value_languages_probe
+from ..lexprobe import LexProbe
 from ..pe import Interp, ModuleEnv
 from ..taint import TaintInterp, Obj
 
@@ -54,8 +54,8 @@ def integer_only_path(tmod, line):
 def check(chk, repo, tier):
     chk.trusted_base += ["CPython ast", "vystatic.taint template domain"]
     it = Interp(repo)
-    lm = LexModel(repo, it)
-    langs = value_languages(lm)
+    lp = LexProbe(repo, it)
+    langs = value_languages_probe(lp)
     tmod = repo.mod("transpile")
     TF = tmod.rel
     ptr = it.module("vyxal.transpile")
@@ -175,52 +175,16 @@ def check(chk, repo, tier):
     chk.ob("C05.text-unmodified", "transpile_token/NUMBER", True,
            sample={"string operations on the literal text": n_ops})
 
-    # ---- lexer: the two splitting conditions ---------------------------------------
+    # ---- lexer: splitting laws on digit strings --------------------------------------
     LF = repo.mod("lexer").rel
-    nb = [b for b in lm.branches if b.chars is not ANY and "0" in b.chars
-          and "NUMBER" in b.kinds]
-    if not nb:
-        raise AnalysisError("anchor vanished: number branch of the lexer")
-    br = nb[0]
     lang = langs.get("NUMBER")
     chk.ob("C05.number-charset", "lexer NUMBER language",
            lang is not None and lang.chars is not None
            and lang.chars <= set("0123456789.°"),
            "NUMBER tokens may now contain characters other than digits, '.' "
-           "and '°'", LF, br.line,
-           sample=lang.describe() if lang else None)
-    zero_alone = False
-    for st in br.body:
-        if isinstance(st, ast.If) and f'{lm.head_var} == "0"' in ast.unparse(
-                st.test).replace("'", '"'):
-            scans = [n for b in st.body for n in ast.walk(b)
-                     if isinstance(n, ast.While)]
-            appends = [n for b in st.body for n in ast.walk(b)
-                       if isinstance(n, ast.Call) and n in br.token_sites]
-            zero_alone = bool(appends) and not scans
-    chk.ob("C05.leading-zero-stands-alone", "lexer NUMBER branch", zero_alone,
-           "a leading 0 (not followed by '.' or '°') must be emitted as its "
-           "own NUMBER token without scanning further digits", LF, br.line,
-           witness="01 lexes as 0, 1", sample="if head == '0' and not (...)")
-    one_point = False
-    for n in ast.walk(ast.Module(body=br.body, type_ignores=[])):
-        if isinstance(n, ast.While):
-            t = ast.unparse(n.test).replace("'", '"')
-            if '.count(".") < 2' in t:
-                one_point = True
-            for m in ast.walk(n):
-                if isinstance(m, ast.If) and any(
-                        isinstance(b, ast.Break) for b in m.body):
-                    tt = ast.unparse(m.test).replace("'", '"').replace(" ", "")
-                    if '.count(".")>1' in tt or '.count(".")>=2' in tt:
-                        one_point = True
-    chk.ob("C05.second-point-splits", "lexer NUMBER scan guard", one_point,
-           "the scan loop must stop before a second '.' in one part "
-           "(`.count(\".\") < 2`)", LF, br.line, witness="1.2.3 lexes as "
-           "1.2, .3", sample='x.count(".") < 2')
-
-    from .c03 import popped_char_rule  # noqa: PLC0415
-    popped_char_rule(chk, lm, LF, "C05.split-keeps-the-character")
+           "and '°'", LF, sample=lang.describe() if lang else None)
+    n = law_number_splitting(chk, lp, "C05", LF)
+    chk.unit("digit strings lexed (length <= 5 over 0 7 . °)", n)
 
     chk.explanation = (
         "Clause-level: on the NUMBER lowering path (template extracted in the "
